@@ -211,6 +211,29 @@ def run_area(spec):
         with warnings.catch_warnings():
             warnings.simplefilter("ignore")
             out["lonlat2colrow_scalar"] = [index_scalar(area.lonlat2colrow, float(p[0]), float(p[1])) for p in pl[:min(ns, 3)]]
+    # ---- histories: sequences of lon/lat accessor calls on ONE fresh object each
+    hs = []
+    for hist in spec.get("histories", []):
+        obj = AreaDefinition("c01", "c01", "c01", spec["crs"], spec["w"], spec["h"], tuple(spec["extent"]))
+        steps = []
+        for op in hist:
+            try:
+                if op["op"] == "get_lonlats":
+                    dt = np.dtype(op["dtype"]) if op.get("dtype") else None
+                    steps.append({"ll": pair_out(obj.get_lonlats(data_slice=to_data_slice(op.get("slice")), dtype=dt,
+                                                                 chunks=to_chunks(op.get("chunks")), cache=bool(op.get("cache"))))})
+                elif op["op"] == "get_lonlat":
+                    r = obj.get_lonlat(op["row"], op["col"])
+                    steps.append({"value": [float(r[0]), float(r[1])]})
+                elif op["op"] == "colrow2lonlat":
+                    r = obj.colrow2lonlat(op["col"], op["row"])
+                    steps.append({"value": [float(r[0]), float(r[1])]})
+                else:
+                    steps.append({"error": "unknown op"})
+            except Exception as e:
+                steps.append(err(e))
+        hs.append(steps)
+    out["histories"] = hs
     return out
 
 
